@@ -161,6 +161,8 @@ Inert == AgentView(cur, Rcv) = AgentView(pre, Rcv) /\ Emitted = {} /\ NoCallback
 C02_BadRequestInert == (IsDeliver /\ ev.m.kind = "req" /\ ~ReqAuthOK) => Inert
 C02_BadResponseInert == (IsDeliver /\ ev.m.kind = "succ" /\ (~RespAuthOK \/ ~Known(pre, Rcv, ev.m.src))) => Inert
 C02_ErrorInert == (IsDeliver /\ ev.m.kind = "err") => Inert
+\* non-Binding methods change nothing, whatever class, credentials and transaction id they carry
+C02_NonBindingInert == (IsDeliver /\ ev.m.kind = "other") => Inert
 C02_IndicationOnlyLiveness ==
   (IsDeliver /\ ev.m.kind = "ind") =>
      /\ Emitted = {} /\ NoCallbacks(Rcv)
@@ -359,6 +361,7 @@ P(n) == CASE n = "C01_Mirror" -> C01_Mirror []
         n = "C02_BadRequestInert" -> C02_BadRequestInert []
         n = "C02_BadResponseInert" -> C02_BadResponseInert []
         n = "C02_ErrorInert" -> C02_ErrorInert []
+        n = "C02_NonBindingInert" -> C02_NonBindingInert []
         n = "C02_IndicationOnlyLiveness" -> C02_IndicationOnlyLiveness []
         n = "C02_UnmatchedResponse" -> C02_UnmatchedResponse []
         n = "C02_MatchedOnly" -> C02_MatchedOnly []
@@ -403,7 +406,7 @@ P(n) == CASE n = "C01_Mirror" -> C01_Mirror []
         n = "C07_ConnCounters" -> C07_ConnCounters []
         n = "C07_PairCounters" -> C07_PairCounters
 Report == \A n \in Check : P(n) \/ PrintT(<<"VIOL", n, l - 1>>)
-AllPredicates == {"C01_Mirror", "C01_Converges", "C01_NeverWithoutPath", "C02_BadRequestInert", "C02_BadResponseInert", "C02_ErrorInert", "C02_IndicationOnlyLiveness", "C02_UnmatchedResponse", "C02_MatchedOnly", "C02_StaleResponseInert", "C03_SelValidated", "C03_LiteSelectsOnNomination", "C03_NoUCFromControlled", "C03_LiteNeverRequests", "C03_NoDowngrade", "C05_Rule", "C05_OppositeAtEnd", "C06_UniqueIds", "C06_NoDupPairs", "C06_PairsFromCurrent", "C06_SelListed", "C06_IdStable", "C06_RemotesDeduped", "C06_NoResidue", "C06_NoResidueNew", "C06_SupersessionPreserves", "C04_TimingRule", "C04_CheckingDeadline", "C04_LifecycleStrict", "C04_Lifecycle", "C04_FC04Seen", "C04_NotifiedIsActual", "C04_SelWhileConnected", "C04_ReleasedOnFailed", "C20_AcceptMonotone", "C20_StaleIgnored", "C20_SwitchOnValid", "C20_SwitchWhenValidated", "C20_ControllingKeepsNewest", "C20_QuiescentAgreement", "C20_ValueOnWire", "C20_OnlyControllingEnabled", "C07_WriteRoute", "C07_StunShapedConsistent", "C07_NoSTUNWrite", "C07_ReadOnlyKnown", "C07_DataInert", "C07_ConnCounters", "C07_PairCounters"}
+AllPredicates == {"C01_Mirror", "C01_Converges", "C01_NeverWithoutPath", "C02_BadRequestInert", "C02_BadResponseInert", "C02_ErrorInert", "C02_NonBindingInert", "C02_IndicationOnlyLiveness", "C02_UnmatchedResponse", "C02_MatchedOnly", "C02_StaleResponseInert", "C03_SelValidated", "C03_LiteSelectsOnNomination", "C03_NoUCFromControlled", "C03_LiteNeverRequests", "C03_NoDowngrade", "C05_Rule", "C05_OppositeAtEnd", "C06_UniqueIds", "C06_NoDupPairs", "C06_PairsFromCurrent", "C06_SelListed", "C06_IdStable", "C06_RemotesDeduped", "C06_NoResidue", "C06_NoResidueNew", "C06_SupersessionPreserves", "C04_TimingRule", "C04_CheckingDeadline", "C04_LifecycleStrict", "C04_Lifecycle", "C04_FC04Seen", "C04_NotifiedIsActual", "C04_SelWhileConnected", "C04_ReleasedOnFailed", "C20_AcceptMonotone", "C20_StaleIgnored", "C20_SwitchOnValid", "C20_SwitchWhenValidated", "C20_ControllingKeepsNewest", "C20_QuiescentAgreement", "C20_ValueOnWire", "C20_OnlyControllingEnabled", "C07_WriteRoute", "C07_StunShapedConsistent", "C07_NoSTUNWrite", "C07_ReadOnlyKnown", "C07_DataInert", "C07_ConnCounters", "C07_PairCounters"}
 Done == IF TLCGet("stats").diameter = Len(Tr) THEN TRUE
         ELSE Print(<<"MONITOR_STOPPED_AT", TLCGet("stats").diameter, Len(Tr)>>, FALSE)
 ====
